@@ -24,3 +24,30 @@ Qed.
 
 Example C17_ex : aq_pending (aq_run aq_empty [AAppend [1]; AAppend [2]; AFlush; AAck 5; AAck 1]) = 1%nat.
 Proof. reflexivity. Qed.
+
+(* ---- what the Flushed callback reports, on the writer model (Model/PQWriter.v; Proofs/PQWriterCountProofs.v). flushBuffer
+   invokes the callback with the number of events completed since the last successful flush whenever doFlush does not
+   fail - also when it found nothing to write. For EVERY run of Write / Next / Flush calls and every flush outcome,
+   followed by a Next or Flush whose flush does not fail: the callbacks reported so far add up to exactly the number of
+   completed events, nothing is left to report, and exactly these events are what the reader's parser finds in the page
+   payloads as written to the file. The case "nothing to write" needs an invariant of the buffer (the open header lives
+   in the first or second buffer page, or the head page is dirty): a clean head page means everything is written. ---- *)
+From VF Require Import PQWriter PQWriterProofs PQWriterCountProofs.
+Theorem C17_flushed_callbacks_report_the_published_events : forall PS, (hdr_len <= payload PS)%nat ->
+  forall pages tail endId root ops o,
+  match tail with Some t => (length (wp_data t) <= payload PS)%nat /\ wp_dirty t = false /\ wp_disk t = Some (wp_data t) | None => True end ->
+  let base := match tail with Some t => wp_data t | None => [] end in
+  let '(s1, rs) := w_run PS (w_init PS pages tail endId root) ops in
+  let '(s2, r) := w_step PS s1 o in
+  let '(done, cur) := spec_step (spec_run ([], []) ops rs) o r in
+  match o, r with
+  | WNext _, WOk (Some _) | WFlush _, WOk (Some _) =>
+      (cb_total rs + cb_of r = Z.of_nat (length done))%Z /\ ws_active s2 = 0%Z /\
+      (Forall (fun e => Z.of_nat (length e) < 256 ^ Z.of_nat hdr_len)%Z done ->
+       exists i off, b_hdr (ws_buf s2) = Some (i, off) /\
+         parse_from (payload PS) (flat (payload PS) (map disk_data (cores (ws_hist s2 ++ firstn (S i) (b_pages (ws_buf s2))))))
+                    (length base) (length done) = Some done)
+  | _, _ => True
+  end.
+Proof. exact flushed_callbacks_report_the_published_events. Qed.
+Print Assumptions C17_flushed_callbacks_report_the_published_events.
